@@ -94,13 +94,10 @@ func NewPREF64(prefix netip.Prefix, maxInterval time.Duration) *PREF64 {
 	// Calculate the scaled lifetime using MaxRtrAdvInterval.
 	// See https://datatracker.ietf.org/doc/html/rfc8781#section-4.1-2
 	lifetime := maxPref64Lifetime
-	if int(maxInterval.Seconds())*3 < int(lifetime.Seconds()) {
-		lifetimeSeconds := int(maxInterval.Seconds()) * 3
-		if r := int(lifetimeSeconds) % 8; r > 0 {
-			lifetimeSeconds += 8 - r
-		}
-
-		lifetime = time.Duration(lifetimeSeconds) * time.Second
+	if scaled := 3 * maxInterval; scaled < lifetime {
+		// Round up to the next multiple of the option's 8 second unit.
+		const unit = 8 * time.Second
+		lifetime = (scaled + unit - 1) / unit * unit
 	}
 
 	return &PREF64{
